@@ -55,7 +55,7 @@ Lemma Inv_replace_top s fr frs k :
   (forall o, n_fin o frs = f_fin o fr) ->
   Inv s (frs ++ k).
 Proof.
-  intros [Hshape Htbl [C1 C2 C3 C4 C5] Hnd Hin] Hws Hww Ha Hf.
+  intros [Hshape Htbl [C1 C2 C3 C4 C5 C6] Hnd Hin] Hws Hww Ha Hf.
   assert (HWs : forall o, W (sw_strong o) s (frs ++ k) = W (sw_strong o) s (fr :: k)).
   { intros o. unfold W. rewrite total_app. cbn [total]. rewrite Hws. lia. }
   assert (HWw : forall o, W (sw_weak o) s (frs ++ k) = W (sw_weak o) s (fr :: k)).
@@ -71,6 +71,7 @@ Proof.
     + intros o b Hb. rewrite HA. apply (C3 o b Hb).
     + intros o b Hb Hp. rewrite HF in Hp. apply (C4 o b Hb Hp).
     + intros o Hb. rewrite HWs, HWw, HA, HF. apply (C5 o Hb).
+    + exact C6.
   - apply inert_replace with (fr := fr); [exact Hin|].
     intros fr' Hin' o. rewrite <- Hws. apply (total_in_le (w_frame (sw_strong o)) frs fr' Hin').
 Qed.
@@ -78,7 +79,7 @@ Qed.
 (** logging an event that is not a leak changes nothing *)
 Lemma Inv_add_ev s e K : (forall o, e_leak o e = 0) -> Inv s K -> Inv (add_ev s e) K.
 Proof.
-  intros He [Hshape Htbl [C1 C2 C3 C4 C5] Hnd Hin].
+  intros He [Hshape Htbl [C1 C2 C3 C4 C5 C6] Hnd Hin].
   assert (HL : forall o, n_leak o (log (add_ev s e)) = n_leak o (log s)).
   { intros o. rewrite log_add_ev, n_leak_cons, He. lia. }
   split; [exact Hshape|exact Htbl| |exact Hnd|].
@@ -88,6 +89,7 @@ Proof.
     + intros o b Hb. rewrite HL. apply (C3 o b Hb).
     + exact C4.
     + intros o Hb. rewrite HL. apply (C5 o Hb).
+    + intros o b Hb Hp. rewrite HL in Hp. apply (C6 o b Hb Hp).
   - apply inert_ok_log with (lg := log s); [|exact Hin]. intros o. rewrite HL. lia.
 Qed.
 
@@ -146,7 +148,7 @@ Lemma Inv_dec_weak s K K' o b b' :
   Inv (set_heap s (setb (heap_of s) o b')) K'.
 Proof.
   intros HI Hb Hs Hv Hlk Hw Hfr HWs Hoth Hfin Hdelta Hdy Hin'.
-  destruct HI as [Hshape Htbl [C1 C2 C3 C4 C5] Hnd Hin].
+  destruct HI as [Hshape Htbl [C1 C2 C3 C4 C5 C6] Hnd Hin].
   assert (Hlive : live b' = live b) by (unfold live; rewrite Hs; reflexivity).
   destruct (Hshape o b Hb) as (S1 & S2 & S3 & S4).
   assert (Hbt : btable b' = btable b).
@@ -208,6 +210,9 @@ Proof.
       assert (Hne : y <> o) by (intros ->; congruence).
       destruct (C5 y Hy') as (E1 & E2 & E3 & E4 & E5). destruct (Hoth y Hne) as (_ & -> & ->).
       rewrite HWs', (HWw y Hne), log_set_heap. repeat split; assumption.
+    + intros y by' Hy Hp. rewrite heap_of_set_heap, Hnth in Hy. rewrite log_set_heap in Hp.
+      destruct (Nat.eqb_spec o y) as [<-|Hne]; [|apply (C6 y by' Hy Hp)].
+      injection Hy as <-. rewrite Hs. apply (C6 o b Hb Hp).
   - (* no dangling handle *)
     intros y Hy. rewrite Hheld in Hy. rewrite heap_of_set_heap, Hnth.
     destruct (Hnd y Hy) as (by0 & Hy0 & Hl0).
